@@ -280,7 +280,7 @@ fn check_adapter(c: &Case, obs: &mut Obs) {
     obs.class("adapter");
     let a = rect(area.0, area.1, area.2, area.3);
     let tb = rect(target_box.0, target_box.1, target_box.2, target_box.3);
-    let circle = embedded_graphics::primitives::Circle::new(Point::new(-20, -30), 90).into_styled(Sty { fill: true, stroke: true, w: 3, al: 0 }.build::<C>());
+    let circle = embedded_graphics::primitives::Circle::new(Point::new(-20, -30), 90).into_styled(Sty { fill: true, stroke: true, w: 3, al: 0, same: false }.build::<C>());
     let data = [0x5Au8; 2 * 5 * 4];
     let img = ImageRaw::<C>::new(&data, Size::new(5, 4)).unwrap();
     let r = probe(obs, "draw through adapters", || {
@@ -433,17 +433,17 @@ fn check(c: &Case, obs: &mut Obs) {
 // ---- domains (boundary-value products) ---------------------------------------------------------
 
 fn stys(tier: Tier) -> Vec<Sty> {
-    let mut v = vec![Sty { fill: true, stroke: false, w: 0, al: 0 }];
+    let mut v = vec![Sty { fill: true, stroke: false, w: 0, al: 0, same: false }];
     let widths: &[u32] = if tier.is_thorough() { &[1, 2, 3, 10, 64, 128] } else { &[1, 3, 10, 128] };
     for &w in widths {
         for al in 0..3u8 {
-            v.push(Sty { fill: false, stroke: true, w, al });
+            v.push(Sty { fill: false, stroke: true, w, al, same: false });
             if w != 2 && w != 10 {
-                v.push(Sty { fill: true, stroke: true, w, al });
+                v.push(Sty { fill: true, stroke: true, w, al, same: false });
             }
         }
     }
-    v.push(Sty { fill: true, stroke: false, w: 64, al: 1 });
+    v.push(Sty { fill: true, stroke: false, w: 64, al: 1, same: false });
     v
 }
 
@@ -559,11 +559,11 @@ fn prim_cases(tier: Tier, part: &str) -> Vec<Case> {
     let st = stys(tier);
     // quick: the large triangle / polyline families get a reduced style list
     let reduced: Vec<Sty> = vec![
-        Sty { fill: true, stroke: false, w: 0, al: 0 },
-        Sty { fill: false, stroke: true, w: 1, al: 0 },
-        Sty { fill: true, stroke: true, w: 3, al: 0 },
-        Sty { fill: false, stroke: true, w: 10, al: 1 },
-        Sty { fill: false, stroke: true, w: 128, al: 2 },
+        Sty { fill: true, stroke: false, w: 0, al: 0, same: false },
+        Sty { fill: false, stroke: true, w: 1, al: 0, same: false },
+        Sty { fill: true, stroke: true, w: 3, al: 0, same: false },
+        Sty { fill: false, stroke: true, w: 10, al: 1, same: false },
+        Sty { fill: false, stroke: true, w: 128, al: 2, same: false },
     ];
     let mut v = vec![];
     for s in &shapes {
@@ -619,7 +619,7 @@ fn other_cases(tier: Tier) -> Vec<Case> {
         }
     }
     // adapters
-    for area in [(0, 0, 0, 0), (-1024, -1024, 2048, 2048), (10, 10, 30, 20), (1024, 1024, 1024, 1024), (-1024, 5, 1024, 1), (63, 63, 1, 1024)] {
+    for area in [(0, 0, 0, 0), (-1024, -1024, 2048, 2048), (10, 10, 30, 20), (1024, 1024, 1024, 1024), (-1024, 5, 1024, 1), (63, 63, 1, 1024), (2, 2, 1024, 0), (3, 1, 0, 1024), (-5, -5, 0, 0)] {
         for shift in [(0, 0), (-1024, 1024), (1024, 1024), (-1, 1)] {
             for tb in [(0, 0, 64, 64), (-257, 1, 320, 240), (0, 0, 0, 0), (-1024, -1024, 2048, 2048)] {
                 for kind in 0..=5u8 {
